@@ -122,6 +122,8 @@ class Server:
             'kexinit_raw': None,       # latin-1 payload overriding the lists
             'hostkeys': {},            # keytype -> blob spec
             'moduli': [], 'gex_style': 'strict',
+            'moduli_by_alg': None,     # optional: gex algorithm name -> moduli (overrides 'moduli' for that algorithm)
+            'kexinit_pad': None,       # padding length of the KEXINIT packet (None = minimal)
             'faults': [],              # [what, conn_idx | '*', fault]
             'rate': 'normal',          # behaviour towards non-blocking (rate-test) connections
         }
@@ -179,8 +181,9 @@ class Server:
             f = self.faults.get((what, '*'))
         return f
 
-    def choose_modulus(self, mn, pref, mx):
-        ms = sorted(self.moduli)
+    def choose_modulus(self, mn, pref, mx, alg=None):
+        by = self.spec.get('moduli_by_alg') or {}
+        ms = sorted(by[alg]) if alg in by else sorted(self.moduli)
         if self.gex_style == 'strict':
             cand = [m for m in ms if mn <= m <= mx]
             if not cand:
@@ -249,7 +252,7 @@ class Conn:
         s = self.server
         self.emit('banner', s.pre + s.banner + s.eol)
         if s.spec['proto'] == 2:
-            self.emit('kexinit', wire.pkt(s.kexinit), s.kexinit)
+            self.emit('kexinit', wire.pkt(s.kexinit, pad=s.spec.get('kexinit_pad')), s.kexinit)
 
     def emit(self, what, data, payload=None):
         if self.closed_by_server or self.stalled:
@@ -324,7 +327,7 @@ class Conn:
                 return
             mn, pref, mx = struct.unpack('>III', payload[1:13])
             srv.log.append((self.idx, 'gex_request', [mn, pref, mx]))
-            m = srv.choose_modulus(mn, pref, mx)
+            m = srv.choose_modulus(mn, pref, mx, self.ckex[0] if self.ckex else None)
             if m is None:
                 self.closed_by_server = True
                 return
@@ -351,7 +354,7 @@ class Ssh1Server(Server):
     'Protocol major versions differ.' line when the client announced SSH-2)."""
 
     def __init__(self, spec=None, **kw):
-        d = {'proto': 1, 'banner': 'SSH-1.5-OpenSSH_3.0', 'eol': '\n', 'cmask': 0x48, 'amask': 0x0c, 'skey_bits': 768, 'hkey_bits': 1024, 'bad_crc': False, 'pkm_raw': None}
+        d = {'proto': 1, 'banner': 'SSH-1.5-OpenSSH_3.0', 'eol': '\n', 'cmask': 0x48, 'amask': 0x0c, 'skey_bits': 768, 'hkey_bits': 1024, 'bad_crc': False, 'pkm_raw': None, 'always_differ': False}
         d.update(spec or {})
         d.update(kw)
         super().__init__(d)
@@ -369,7 +372,7 @@ class Ssh1Server(Server):
 class Ssh1Conn(Conn):
     def on_client_banner(self):
         s = self.server.spec
-        if self.client_banner.startswith(b'SSH-2'):
+        if self.client_banner.startswith(b'SSH-2') or s.get('always_differ'):
             self.emit('differ', b'Protocol major versions differ.\n')
             self.closed_by_server = True
             return
@@ -493,6 +496,8 @@ class VSocket:
             return b''
         if self.timeout == 0.0:
             raise BlockingIOError(errno.EAGAIN, 'Resource temporarily unavailable')
+        if net.gate is not None:
+            net.gate.connection_point()      # a read that blocks lets the other workers run before it times out
         net.advance(self.timeout or 0)
         net.stalls += 1
         net.stall_log.append(self.rec['id'])
